@@ -4,7 +4,7 @@ set -e
 cd "$(dirname "$0")"
 export CARGO_NET_OFFLINE=true
 python3 tools/extract_src.py
-(cd coq && coq_makefile -f _CoqProject -o Makefile >/dev/null && timeout 3000 make -j16)
+(cd coq && coq_makefile -f _CoqProject -o Makefile >/dev/null && (ulimit -s 1000000 2>/dev/null; make -j16))
 cp -f /repo/Cargo.lock harness/Cargo.lock
 (cd harness && cargo build --release --offline --quiet)
 echo "setup done"
